@@ -42,6 +42,7 @@ extern "C" __attribute__((used)) const char* __asan_default_options()
 namespace
 {
 using H = sim::Harness<CFG_TRAITS, CFG_PARAMS>;
+volatile int g_cur_failk = 0;
 
 void crash_line(const char* cls, const void* addr)
 {
@@ -54,9 +55,10 @@ void crash_line(const char* cls, const void* addr)
                      dom);
     char buf[700];
     const int op = sim::g_cur_op;
-    const int n = std::snprintf(buf, sizeof(buf), "\nCRASH run=%ld step=%d op=%s props=%s class=%s %s\n", sim::g_cur_run,
-                                sim::g_cur_step, (op >= 0 && op < sim::OP_COUNT) ? sim::OP_NAMES[op] : "teardown", dom,
-                                cls, detail);
+    const int n = std::snprintf(buf, sizeof(buf), "\nCRASH run=%ld step=%d op=%s props=%s class=%s failk=%d %s\n",
+                                sim::g_cur_run, sim::g_cur_step,
+                                (op >= 0 && op < sim::OP_COUNT) ? sim::OP_NAMES[op] : "teardown", dom, cls, g_cur_failk,
+                                detail);
     if (n > 0) (void)!::write(1, buf, static_cast<std::size_t>(n));
 }
 
@@ -129,6 +131,9 @@ int c19_maxsteps = 1 << 30;
 
 struct Outcome
 {
+    int last_allocs = 0;      // allocation requests seen by the last executed step
+    bool last_executed = false;
+    int failk = 0;
     int status = 0;  // 0 ok, 1 focus violation, 2 blocked, 3 capped
     sim::Violation v;
     std::uint64_t hash = 0;
@@ -162,7 +167,11 @@ Outcome execute(const std::vector<sim::Op>& plan, int prop, std::uint64_t env_se
     {
         for (auto& op : plan)
         {
-            if (!h->step(op)) break;
+            const auto skipped_before = ctr.skipped_ops;
+            const bool go = h->step(op);
+            out.last_allocs = sim::g_heap.op_allocs;
+            out.last_executed = ctr.skipped_ops == skipped_before;
+            if (!go) break;
         }
     }
     if (!rc.stop) h->teardown();
@@ -205,10 +214,10 @@ void print_outcome(long run, const Outcome& o, bool always)
     static const char* const ST[] = {"ok", "viol", "blocked", "capped"};
     if (o.status == 1 || o.status == 2)
     {
-        std::printf("R %ld %s props=%s class=%s step=%d op=%s hash=%016llx key=%s\n", run, ST[o.status], props,
+        std::printf("R %ld %s props=%s class=%s step=%d op=%s hash=%016llx failk=%d key=%s\n", run, ST[o.status], props,
                     o.v.cls.c_str(), o.v.step,
                     (o.v.op >= 0 && o.v.op < sim::OP_COUNT) ? sim::OP_NAMES[o.v.op] : "teardown",
-                    static_cast<unsigned long long>(o.hash), o.v.key.c_str());
+                    static_cast<unsigned long long>(o.hash), o.failk, o.v.key.c_str());
     }
     else
     {
@@ -241,6 +250,68 @@ std::uint64_t run_seed_of(std::uint64_t seed, int prop, long index)
                        static_cast<std::uint64_t>(index));
 }
 
+// ---- C17 fault enumeration: prefix (no faults) + one allocating subject op + fixed epilogue ------------------
+bool c17_enumerated_run(int prop, long index) { return prop == sim::C17 && (index % 2) == 0; }
+
+std::vector<sim::Op> c17_prefix(std::uint64_t rs, bool thorough)
+{
+    auto plan = sim::generate_plan(sim::C17, rs, thorough, false);
+    if (plan.size() > 24) plan.resize(24);
+    return plan;
+}
+
+sim::Op c17_subject(std::uint64_t rs)
+{
+    sim::Rng r(sim::derive(rs, "c17-subject"));
+    static const int KINDS[] = {sim::OP_CONSTRUCT,     sim::OP_RESERVE,      sim::OP_RESERVE,       sim::OP_COPY_CONSTRUCT,
+                                sim::OP_COPY_ASSIGN,   sim::OP_COPY_ASSIGN,  sim::OP_MOVE_ASSIGN,   sim::OP_MOVE_ASSIGN,
+                                sim::OP_ELEM_CONSTRUCT, sim::OP_ELEM_COPY,   sim::OP_ELEM_ASSIGN,   sim::OP_ELEM_ASSIGN};
+    sim::Op op;
+    op.kind = KINDS[r.below(sizeof(KINDS) / sizeof(KINDS[0]))];
+    for (int& a : op.a) a = static_cast<int>(r.below(1000));
+    if (op.kind == sim::OP_RESERVE) op.a[1] = 2 + static_cast<int>(r.below(3));  // growing
+    if (op.kind == sim::OP_CONSTRUCT) op.a[1] = static_cast<int>(r.below(9));
+    return op;
+}
+
+std::vector<sim::Op> c17_epilogue(const sim::Op& subject, std::uint64_t rs)
+{
+    sim::Rng r(sim::derive(rs, "c17-epilogue"));
+    std::vector<sim::Op> e;
+    auto mk = [&](int kind, int a0, int a1)
+    {
+        sim::Op op;
+        op.kind = kind;
+        for (int& a : op.a) a = static_cast<int>(r.below(1000));
+        op.a[0] = a0;
+        op.a[1] = a1;
+        e.push_back(op);
+    };
+    // the operands must still be assignable, clearable and destructible
+    mk(sim::OP_CONSTRUCT, subject.a[0] + 1, 3);
+    mk(sim::OP_EMPLACE_BACK, subject.a[0] + 1, 0);
+    mk(sim::OP_EMPLACE_BACK, subject.a[0] + 1, 0);
+    mk(sim::OP_COPY_ASSIGN, subject.a[0], subject.a[0] + 1);
+    mk(sim::OP_MOVE_ASSIGN, subject.a[1], subject.a[0] + 1);
+    mk(sim::OP_CLEAR, subject.a[0], 0);
+    mk(sim::OP_ELEM_ASSIGN, subject.a[0], subject.a[1]);
+    mk(sim::OP_ELEM_DESTROY, subject.a[0], 0);
+    return e;
+}
+
+std::vector<sim::Op> c17_plan(std::uint64_t rs, bool thorough, int failk)
+{
+    auto plan = c17_prefix(rs, thorough);
+    sim::Op subj = c17_subject(rs);
+    subj.fail = failk;
+    plan.push_back(subj);
+    if (failk > 0)
+    {
+        for (auto& op : c17_epilogue(subj, rs)) plan.push_back(op);
+    }
+    return plan;
+}
+
 bool differential(int prop) { return prop == sim::C13 || prop == sim::C14 || prop == sim::C18; }
 bool fault_population(int prop, long index) { return prop == sim::C17 || (index % 4) == 3; }
 }  // namespace
@@ -256,6 +327,7 @@ int main(int argc, char** argv)
     int prop = sim::C01;
     std::uint64_t seed = 1, env = 1, env2 = 0;
     long from = 0, count = 1, run = 0;
+    int failk = 0;
     bool thorough = false, hashes = false;
     const char* plan_path = nullptr;
     const char* cases_path = nullptr;
@@ -270,6 +342,7 @@ int main(int argc, char** argv)
         else if (a == "--from") from = std::strtol(next(), nullptr, 10);
         else if (a == "--count") count = std::strtol(next(), nullptr, 10);
         else if (a == "--run") run = std::strtol(next(), nullptr, 10);
+        else if (a == "--failk") failk = static_cast<int>(std::strtol(next(), nullptr, 10));
         else if (a == "--env") env = std::strtoull(next(), nullptr, 10);
         else if (a == "--env2") env2 = std::strtoull(next(), nullptr, 10);
         else if (a == "--thorough") thorough = true;
@@ -301,7 +374,9 @@ int main(int argc, char** argv)
     if (mode == "plan")
     {
         const auto rs = run_seed_of(seed, prop, run);
-        const auto plan = sim::generate_plan(prop, rs, thorough, fault_population(prop, run));
+        const auto plan = (c17_enumerated_run(prop, run) && failk > 0)
+                              ? c17_plan(rs, thorough, failk)
+                              : sim::generate_plan(prop, rs, thorough, fault_population(prop, run));
         std::printf("# cfg=%s prop=C%02d seed=%llu run=%ld env=%llu env2=%llu\n", CFG_NAME, prop,
                     static_cast<unsigned long long>(seed), run, static_cast<unsigned long long>(sim::derive(rs, "env")),
                     static_cast<unsigned long long>(sim::derive(rs, "env-alt")));
@@ -359,7 +434,7 @@ int main(int argc, char** argv)
     if (mode == "run")
     {
         std::vector<std::uint64_t> cases;
-        std::uint64_t ok = 0, viol = 0, blocked = 0, capped = 0;
+        std::uint64_t ok = 0, viol = 0, blocked = 0, capped = 0, c17_subjects = 0, c17_points = 0;
         for (long idx = from; idx < from + count; ++idx)
         {
             sim::g_cur_run = idx;
@@ -368,7 +443,26 @@ int main(int argc, char** argv)
             c19_thorough = thorough;
             const auto plan = prop == sim::C19 ? std::vector<sim::Op>{} : sim::generate_plan(prop, rs, thorough, fault_population(prop, idx));
             const auto e1 = sim::derive(rs, "env");
-            Outcome o = execute(plan, prop, e1, ctr, &cases, avoid, known, &known_hits);
+            Outcome o;
+            if (c17_enumerated_run(prop, idx))
+            {
+                // dry run: how many allocations does the subject operation perform in this state?
+                o = execute(c17_plan(rs, thorough, 0), prop, e1, ctr, nullptr, avoid, known, &known_hits);
+                const int m = (o.status == 0 && o.last_executed) ? o.last_allocs : 0;
+                if (o.status == 0 && m > 0) ++c17_subjects;
+                for (int k = 1; k <= m && o.status == 0; ++k)
+                {
+                    g_cur_failk = k;
+                    o = execute(c17_plan(rs, thorough, k), prop, e1, ctr, &cases, avoid, known, &known_hits);
+                    o.failk = k;
+                    ++c17_points;
+                }
+                g_cur_failk = 0;
+            }
+            else
+            {
+                o = execute(plan, prop, e1, ctr, &cases, avoid, known, &known_hits);
+            }
             if (o.status == 0 && differential(prop))
             {
                 const auto e2 = sim::derive(rs, "env-alt");
@@ -420,6 +514,8 @@ int main(int argc, char** argv)
                     (unsigned long long)ctr.oracle_evals, cases.size(), (unsigned long long)sim::g_heap.n_alloc,
                     (unsigned long long)sim::g_heap.n_free, (unsigned long long)sim::g_heap.n_fault,
                     (unsigned long long)sim::g_heap.n_min_align);
+        std::printf(",\"c17_subject_ops_enumerated\":%llu,\"c17_failure_points\":%llu", (unsigned long long)c17_subjects,
+                    (unsigned long long)c17_points);
         std::printf(",\"placements\":{");
         for (int i = 0; i < sim::PL_COUNT; ++i)
             std::printf("%s\"%s\":%llu", i ? "," : "", sim::PLACEMENT_NAMES[i], (unsigned long long)sim::g_heap.n_place[i]);
